@@ -26,7 +26,7 @@ ASSUMPTIONS = [
     "find_peaks_kwargs other than None / {} are outside the oracle (prominence etc. change the definition of a peak)",
 ]
 NOT_REACHED = ["non-increasing frequency grids", "find_peaks_kwargs with prominence/width", "grids above 400 points"]
-BUDGET = {"quick": dict(cases=2400, seconds=60, shards=4),
+BUDGET = {"quick": dict(cases=5000, seconds=60, shards=4),
           "thorough": dict(cases=300000, seconds=600, shards=16)}
 REQUIRED = ["mon:cached-peak-matches-stored-range", "mon:mean-curve-peak", "mon:nan-peak-not-in-statistics",
             "invariant_evaluations"]
